@@ -467,6 +467,14 @@ def r7(ctx, rep):
               "`from 5` returned spans such as `0:873-889` - offsets into std.prql, which the caller cannot resolve (no location, no display)", file=f["file"], line=f["l"], fn=f["path"])
 
 
+
+def r8(ctx, rep):
+    # spans are offsets into the text the caller holds (SourceTree / ariadne are given that text): the lexer must lex exactly the string it was
+    # given, not a stripped or rewritten copy (a removed byte order mark shifts every span by one character)
+    import C17
+    rep.borrowed(C17.r2, ctx, "C13.R8", "token and lexer-error spans are offsets into the caller's text", only=r"^same-string")
+
+
 def run(ctx, rep):
-    for r in (r1, r3, r4, r5, r6, r7):
+    for r in (r1, r3, r4, r5, r6, r7, r8):
         rep.guard(r, ctx)
